@@ -1792,6 +1792,152 @@ def rt_none_annotation(req):
 RT['none_annotation'] = rt_none_annotation
 
 
+_WRAPCHAIN_DECO = """%s
+import functools
+class Flag(object):
+    where = 'deco'
+class Report(object):
+    where = 'deco'
+def deco(fn):
+    # keeps its own annotations: only the identifying attributes are copied
+    @functools.wraps(fn, assigned=('__module__', '__name__', '__qualname__', '__doc__'))
+    def wrapper(flag: Flag, *args, **kwargs) -> Report:
+        return fn(*args, **kwargs)
+    return wrapper
+def deco_hand(fn):
+    def wrapper(flag: Flag, *args, **kwargs) -> Report:
+        return fn(*args, **kwargs)
+    wrapper.__wrapped__ = fn
+    return wrapper
+"""
+_WRAPCHAIN_LIB = """%s
+class Flag(object):
+    where = 'lib'
+class Item(object):
+    where = 'lib'
+def fetch(item: Item, n: Flag = None) -> Item:
+    return item
+"""
+
+
+def rt_wrapped_annotations(req):
+    """a wrapper that declares __wrapped__ but has annotations of its own, written in another module than the wrapped function:
+    each annotation is evaluated in the module where it was written (the wrapper's for the wrapper's own parameters and return
+    annotation, the wrapped function's for the parameters discovery brings in), eager and postponed twins agree"""
+    from . import progs
+    problems = []
+    seen = {}
+    for dfut in ('', 'from __future__ import annotations'):
+        for lfut in ('', 'from __future__ import annotations'):
+            dmod, dname = progs.load_module(_WRAPCHAIN_DECO % dfut)
+            lmod, lname = progs.load_module(_WRAPCHAIN_LIB % lfut)
+            try:
+                for mk in ('deco', 'deco_hand'):
+                    w = getattr(dmod, mk)(lmod.fetch)
+                    try:
+                        with warnings.catch_warnings():
+                            warnings.simplefilter('ignore')
+                            sig = sigtools.signature(w)
+                            ev = sig.evaluated()
+                            got = {n: q.annotation for n, q in ev.parameters.items() if q.annotation is not q.empty}
+                            got['return'] = ev.return_annotation
+                            up = {n: q.upgraded_annotation.source_value() for n, q in sig.parameters.items()
+                                  if q.annotation is not q.empty}
+                    except Exception as e:  # noqa
+                        problems.append('wrapped-annotations-raise: %s over a function of another module (wrapper module %s, function module %s): '
+                                        '%s: %s' % (mk, dfut or 'eager', lfut or 'eager', type(e).__name__, e))
+                        continue
+                    want = {'flag': dmod.Flag, 'item': lmod.Item, 'n': lmod.Flag, 'return': dmod.Report}
+                    for n, v in want.items():
+                        if n in got and got[n] is not v:
+                            problems.append('wrapped-annotations: %s: annotation of %r evaluates to %r (%s), written in module %s where it '
+                                            'means %r (wrapper module %s, function module %s); parameters %s' % (
+                                                mk, n, got[n], getattr(got[n], 'where', '?'), 'deco' if v.where == 'deco' else 'lib', v,
+                                                dfut or 'eager', lfut or 'eager', sig))
+                        if n in up and up[n] is not v:
+                            problems.append('wrapped-annotations: %s: upgraded annotation of %r has source_value %r, expected %r' % (mk, n, up[n], v))
+                    seen[(dfut, lfut, mk)] = sorted(got)
+            finally:
+                progs.unload(dname)
+                progs.unload(lname)
+    if len(set(map(tuple, seen.values()))) > 1:
+        problems.append('wrapped-annotations-modes-differ: annotated names per compilation mode %r' % (seen,))
+    return ('ok', tuple(problems[:3]), 'probed')
+
+
+RT['wrapped_annotations'] = rt_wrapped_annotations
+
+
+_WRAPS_DECO = """%s
+import functools
+class Item(object):
+    where = 'deco'
+def deco(fn):
+    @functools.wraps(fn)
+    def wrapper(*args, **kwargs):
+        return fn(*args, **kwargs)
+    return wrapper
+def deco_x(fn):
+    @functools.wraps(fn)
+    def wrapper(extra, *args, **kwargs):
+        return fn(*args, **kwargs)
+    return wrapper
+"""
+_WRAPS_LIB = """%s
+class Item(object):
+    where = 'lib'
+def fetch(item: Item, n: int = 0) -> Item:
+    return item
+"""
+
+
+def rt_wraps_crossmodule(req):
+    """an ordinary functools.wraps decorator defined in one module, applied to an annotated function of another: the
+    annotations (functools.wraps copies them) denote what they denote in the module of the function that was decorated,
+    whichever of the two modules uses `from __future__ import annotations`"""
+    from . import progs
+    problems = []
+    for dfut in ('', 'from __future__ import annotations'):
+        for lfut in ('', 'from __future__ import annotations'):
+            dmod, dname = progs.load_module(_WRAPS_DECO % dfut)
+            lmod, lname = progs.load_module(_WRAPS_LIB % lfut)
+            try:
+                for mk in ('deco', 'deco_x'):
+                    w = getattr(dmod, mk)(lmod.fetch)
+                    for auto in (False, True):
+                        label = '%s, signature(auto=%s), decorator module %s, function module %s' % (
+                            mk, auto, dfut and 'postponed' or 'eager', lfut and 'postponed' or 'eager')
+                        key = 'wraps-copied-annotations-under-discovery' if auto else 'wraps-annotations-plain'     # auto: finding D59
+                        try:
+                            with warnings.catch_warnings():
+                                warnings.simplefilter('ignore')
+                                ev = specifiers.signature(w, auto=auto).evaluated()
+                        except Exception as e:  # noqa
+                            problems.append('%s: evaluated() raises %s: %s (%s)' % (key, type(e).__name__, e, label))
+                            continue
+                        got = {n: q.annotation for n, q in ev.parameters.items() if q.annotation is not q.empty}
+                        got['return'] = ev.return_annotation
+                        want = {'item': lmod.Item, 'n': int, 'return': lmod.Item}
+                        bad = {n: got.get(n) for n in want if got.get(n) is not want[n]}
+                        if bad:
+                            problems.append('%s: evaluated() reports %r, expected the objects of the decorated function\'s module (%s)' % (
+                                key, bad, label))
+            finally:
+                progs.unload(dname)
+                progs.unload(lname)
+    # one line per class of failure
+    out, seen = [], set()
+    for p_ in problems:
+        k_ = p_.split(':')[0]
+        if k_ not in seen:
+            seen.add(k_)
+            out.append(p_)
+    return ('ok', tuple(out), 'probed')
+
+
+RT['wraps_crossmodule'] = rt_wraps_crossmodule
+
+
 # ----------------------------------------------------------------------------- C18: re-decoration after use
 def _redeco_class(scenario):
     if scenario == 'pos_self_a':
